@@ -159,7 +159,8 @@ type outcome struct {
 	credits  []credit
 	tReward  *big.Int // fundToPeriodIScore(Iprep amount, period)
 	minWage  *big.Int // fundToPeriodIScore(Iwage amount, period)
-	iscore   map[int]*big.Int // I-Score found in temp after the run
+	iscore   map[int]*big.Int // I-Score added to temp by the run
+	real     bool             // the snapshots come from the simulator (claims etc. may be present)
 }
 
 func votesOf(vs []VoteIn) icstage.VoteList {
@@ -253,9 +254,20 @@ func run(in *Input) *outcome {
 			return o
 		}
 	}
-	base := reward.GetSnapshot()
+	calcOn(o, stage.GetSnapshot(), reward.GetSnapshot(), in.Limit)
+	return o
+}
+
+// calcOn runs the real calculation on (back, base) and fills the outcome.
+func calcOn(o *outcome, back *icstage.Snapshot, base *icreward.Snapshot, limit int) {
+	fail := func(err error) bool {
+		if err != nil && o.setupErr == "" {
+			o.setupErr = err.Error()
+		}
+		return err != nil
+	}
 	ctx := &calcCtx{
-		back:  stage.GetSnapshot(),
+		back:  back,
 		base:  base,
 		temp:  icreward.NewStateFromSnapshot(base),
 		stats: calculator.NewStats(),
@@ -263,9 +275,9 @@ func run(in *Input) *outcome {
 	}
 	g, err := ctx.back.GetGlobal()
 	if fail(err) {
-		return o
+		return
 	}
-	period := int64(in.Limit + 1)
+	period := int64(limit + 1)
 	o.tReward = calculator.VerifC35FundToPeriodIScore(g.GetV3().GetRewardFundAmountByKey(icstate.KeyIprep), period)
 	o.minWage = calculator.VerifC35FundToPeriodIScore(g.GetV3().GetRewardFundAmountByKey(icstate.KeyIwage), period)
 	o.panicked = hxlib.Catch(func() {
@@ -279,18 +291,24 @@ func run(in *Input) *outcome {
 				continue
 			}
 			is, err := ctx.temp.GetIScore(addrOf(c.Addr))
-			if err != nil {
-				o.setupErr = err.Error()
-				return o
+			if fail(err) {
+				return
 			}
-			if is == nil {
-				o.iscore[c.Addr] = new(big.Int)
-			} else {
-				o.iscore[c.Addr] = new(big.Int).Set(is.Value())
+			v := new(big.Int)
+			if is != nil {
+				v.Set(is.Value())
 			}
+			// what the account held before this calculation (the harness's own terms start from zero)
+			was, err := icreward.NewStateFromSnapshot(base).GetIScore(addrOf(c.Addr))
+			if fail(err) {
+				return
+			}
+			if was != nil {
+				v.Sub(v, was.Value())
+			}
+			o.iscore[c.Addr] = v
 		}
 	}
-	return o
 }
 
 // ---------------------------------------------------------------- well-formedness (what the real pipeline guarantees)
@@ -477,8 +495,11 @@ func oracle(in *Input, o *outcome) string {
 	if total.Cmp(budget) > 0 {
 		return fmt.Sprintf("total I-Score credited %s exceeds the term budget %s (Iprep %s + Iwage %s)", total, budget, budgetPrep, budgetWage)
 	}
-	// what ended up in the reward state equals what was credited
+	// what ended up in the reward state equals what was credited (no claims in the harness's own terms)
 	for a, v := range o.iscore {
+		if o.real {
+			break
+		}
 		exp := new(big.Int)
 		if prepCred[a] != nil {
 			exp.Add(exp, prepCred[a])
@@ -737,14 +758,17 @@ type termOpts struct {
 func (g *gen) genTerm(op termOpts) *Input {
 	r := g.r
 	in := &Input{}
-	in.Limit = pick(r, 0, 1, 2, 5, 9, 99, 99, 300, 1000, 43119, 43119)
+	in.Limit = pick(r, 1, 2, 5, 9, 99, 99, 99, 300, 1000, 43119, 43119, 43119)
+	if r.Intn(25) == 0 {
+		in.Limit = 0
+	}
 	// reward fund
-	switch r.Intn(5) {
+	switch r.Intn(12) {
 	case 0:
 		in.IGlobal = "0"
-	case 1:
+	case 1, 2:
 		in.IGlobal = fmt.Sprint(1 + r.Intn(10000000))
-	case 2:
+	case 3, 4, 5:
 		in.IGlobal = new(big.Int).Mul(big.NewInt(3000000), e18).String()
 	default:
 		in.IGlobal = new(big.Int).Mul(big.NewInt(int64(1+r.Intn(5000000))), new(big.Int).Exp(big.NewInt(10), big.NewInt(int64(r.Intn(19))), nil)).String()
@@ -773,7 +797,10 @@ func (g *gen) genTerm(op termOpts) *Input {
 		prepIDs[i] = 1 + i
 	}
 	r.Shuffle(nPrep, func(i, j int) { prepIDs[i], prepIDs[j] = prepIDs[j], prepIDs[i] })
-	in.Elected = pick(r, 0, 1, nPrep, nPrep+2, 1+r.Intn(nPrep), 1+r.Intn(nPrep), 1+r.Intn(nPrep), 22)
+	in.Elected = pick(r, 1, nPrep, nPrep, nPrep+2, 1+r.Intn(nPrep), 1+r.Intn(nPrep), 1+r.Intn(nPrep), 1+r.Intn(nPrep), 22, 22)
+	if r.Intn(25) == 0 {
+		in.Elected = 0
+	}
 
 	// voters: some are P-Reps themselves
 	nVoter := 3 + r.Intn(18)
@@ -1103,6 +1130,10 @@ func genAll(c *hxlib.Ctx) {
 	for i := 0; i < c.N(30); i++ {
 		emit(c, "term-inconsistent", g.genTerm(termOpts{inconsistent: true}))
 	}
+	// terms produced by the real pipeline
+	for k := 0; k < c.N(2); k++ {
+		genIcsim(c, fmt.Sprint(k), 5)
+	}
 	// fixed boundary terms
 	for _, in := range fixedTerms() {
 		emit(c, "term-fixed", in)
@@ -1176,6 +1207,8 @@ func replay(raw json.RawMessage) string {
 }
 
 func main() {
+	log.GlobalLogger().SetOutput(io.Discard)
+	log.GlobalLogger().SetLevel(log.PanicLevel)
 	hxlib.Main(hxlib.Spec{
 		ID: "C35",
 		Rule: "each case is one whole term run through the real iiss4Reward.Calculate on real icstage/icreward states: 1-30 P-Reps (all enable statuses, with/without public key, zero bond, commission 0..100%), 3-23 voters (some are P-Reps, some vote for unregistered addresses) whose delegations/bonds add up to the P-Reps' totals, 0-24 (or 130-190) events at sorted offsets incl. 0, limit and the key-encoding boundaries 127/128/255/256/32767/32768 (vote deltas incl. full withdrawal, enable/disable/jail, P-Reps and voters appearing during the term), term lengths 1..43120, funds 0..5e24, all bond requirements; malformed streams: a voter overdrawing (calculation must fail) and P-Rep totals inconsistent with the voters (model must still reproduce every number); non-trivial = calculation succeeded, at least two positive credits and at least one event; distinct = distinct Coq case term",
